@@ -34,6 +34,7 @@ def main():
     a = ap.parse_args()
     global REPO
     env = dict(os.environ)
+    env["VERIF_EVIDENCE_DIR"] = "/tmp/verif_seeded_evidence"      # never overwrite the evidence of the unchanged tree
     if a.worktree:
         if not os.path.isdir(a.worktree):
             sh(f"git -C /repo worktree add --detach {a.worktree} HEAD -q")
